@@ -32,6 +32,9 @@ pub struct Obs {
     pub injections: u64,
     /// detached commits built by discarded clones: (member, epoch, CommitSecrets)
     stale: Vec<(usize, u64, Vec<u8>)>,
+    /// second handles on members' groups (copies sharing the member's storage) taken right before a commit arrives:
+    /// (member, copy, the commit)
+    stale_handles: Vec<(usize, VGroup, Vec<u8>)>,
 }
 
 /// Error classes produced before any authentication happens.
@@ -380,7 +383,42 @@ impl Observer for Obs {
         Ok(())
     }
 
+    fn after_commit(&mut self, w: &mut World, _info: &CommitInfo, _st: &HistoryStats) -> CaseResult {
+        // A second handle on a member's group that has not seen the commit yet, while the member itself has processed it
+        // and written its state: whatever the handle answers to the (genuine) commit, a refusal must leave it as it was.
+        for (m, mut copy, bytes) in std::mem::take(&mut self.stale_handles) {
+            if w.parties[m].status != Status::Member {
+                continue;
+            }
+            if w.save(m).is_err() {
+                continue;
+            }
+            let t = w.now();
+            let before = snap_group(&w.parties[m], &copy)?;
+            match guard(|| copy.process_incoming_message_with_time(MlsMessage::from_bytes(&bytes)?, t).map(|_| ())) {
+                Ok(()) => self.ev.class("stale_handle_accepts_the_commit"),
+                Err(e) if e.is_panic() => return Err(panic_failure(P, "process_incoming_message(commit, stale handle)", &e)),
+                Err(e) => {
+                    let after = snap_group(&w.parties[m], &copy)?;
+                    let d = before.diff(&after);
+                    if !d.is_empty() {
+                        // (a private commit has had its message key taken out of the ratchet by then: the listed root cause)
+                        let is_private = MlsMessage::from_bytes(&bytes).map(|x| x.wire_format() == mls_rs::WireFormat::PrivateMessage).unwrap_or(false);
+                        let sig = format!("{P}|rejected_message_changed_state|{}|diff={}", if is_private { "private_message" } else { "commit_on_stale_handle" }, diff_components(&d));
+                        return self.ev.known_or_fail(&sig, || format!("a copy of party {m}'s group refused the commit ({}) that the member had already processed and stored, but changed: {d:?}", e.class()));
+                    }
+                    self.ev.class(&format!("stale_handle_refuses_the_commit_unchanged:{}", e.class()));
+                    self.ev.nontrivial(&("stale_handle", m, w.epoch));
+                }
+            }
+        }
+        Ok(())
+    }
+
     fn before_receive_commit(&mut self, w: &mut World, m: usize, bytes: &[u8]) -> CaseResult {
+        if self.rng.below(4) == 0 && self.stale_handles.len() < 2 && !w.parties[m].g().has_pending_commit() {
+            self.stale_handles.push((m, w.parties[m].g().clone(), bytes.to_vec()));
+        }
         // a copy of the commit with a wrong confirmation tag under a fresh membership tag (public handshake): it passes
         // every check before the key schedule
         if self.rng.below(3) == 0 {
@@ -472,13 +510,13 @@ pub fn run(ctx: &Ctx) -> ! {
          fields chosen uniformly among the wire fields) of genuine application messages, proposals (public and private) and commits; duplicates; own messages; replays of earlier \
          epochs; commits arriving while the receiver lacks the PSK or while its application refuses the new credentials; corrupted commits while the receiver holds its own pending \
          commit, cached proposals or a pending own update; and builds the library must refuse (self-removal, unknown PSK, bad index, two GCE, unknown resumption epoch, an Add whose key package has a correctly signed but unusable init key so that the build fails only while the Welcome is sealed; the secrets of a detached commit of an older epoch). \
-         Oracle: hook Group::verif_state() before/after the failing call under canonical equality (decoded values, secret tree in normal form, clean cached prior epochs dropped), \
+         A second handle on a member's group, taken before a commit arrives, gets the genuine commit after the member has processed and stored it: a refusal must leave the handle unchanged. Oracle: hook Group::verif_state() before/after the failing call under canonical equality (decoded values, secret tree in normal form, clean cached prior epochs dropped), \
          first on a clone then on the member; afterwards the genuine message is delivered and must be accepted, and the history goes on with N-way agreement and cross-decryption. \
          Non-trivial = rejection at or after authentication (error class not decode/epoch/group-id/wire-format) or while a pending commit / pending update / cached proposals exist; \
          distinct by (injection kind, field, error class, state flags, member, epoch).",
         &hp,
         spec,
-        &|case, ev| Obs { ev, rng: SplitMix::new(((case.c(7) as u64) << 16) | case.c(8) as u64, 4), injections: 0, stale: vec![] },
+        &|case, ev| Obs { ev, rng: SplitMix::new(((case.c(7) as u64) << 16) | case.c(8) as u64, 4), injections: 0, stale: vec![], stale_handles: vec![] },
         &|_, o| {
             o.ev.class_n("injections", o.injections);
             false
